@@ -41,10 +41,10 @@ var solvers = []solverSpec{
 }
 
 type runOut struct {
-	solver string
+	solver  string
 	verdict string
-	out    string
-	ms     float64
+	out     string
+	ms      float64
 }
 
 func runSolver(ctx context.Context, s solverSpec, file string, sec int) runOut {
@@ -150,6 +150,17 @@ func dischargeOne(o *Obligation, tmpDir string, idx int, timeoutSec int, keep bo
 	}
 	if want == "sat" {
 		// covers are best-effort: an inconclusive answer is recorded, not failed
+		if len(o.fx.defAx) > 0 {
+			f2 := file + ".nodefs.smt2"
+			if err := os.WriteFile(f2, []byte(o.QueryNoDefs()), 0o644); err == nil {
+				r2 := runSolver(ctx, solvers[0], f2, short)
+				os.Remove(f2)
+				if r2.verdict == "sat" {
+					r.Status, r.Solver, r.Ms = "cover-ok", r2.solver+" (quantified definitional axioms dropped)", ro.ms+r2.ms
+					return r
+				}
+			}
+		}
 		r.Status, r.Solver, r.Ms, r.Output = "cover-unknown", ro.solver, ro.ms, firstLine(ro.out)
 		return r
 	}
